@@ -107,6 +107,12 @@ def run(rep, tier, seed):
     neg = tlc.run("MC_G04", "MC_G04_lag.cfg", workers=4, timeout=3000)
     if not any("Coherent" in v for v in neg.violations):
         rep.fail("G04/model/negative-control", "the stale-parse deviation (ReloadLag = TRUE) was NOT rejected by the invariant Coherent", {})
+    # unbounded: the TLAPS proof that the registry invariants are inductive for ANY set of paths and texts, and that the restated
+    # actions equal the effect functions used here (checked by tlapm on every run)
+    ok, nobl, txt = tlc.tlapm("MechSourcesProof", ["MechSources"], timeout=900, threads=6)
+    if not ok:
+        rep.fail("G04/model/proof", "tlapm could not check MechSourcesProof (Inv inductive, actions = effect functions): " + txt[-600:], {"tlapm": txt})
+    rep.cov["tlaps_obligations_proved"] = nobl
     cases = t.cases
     rnd = random.Random(seed)
     cap = 12000 if tier == "quick" else 80000
